@@ -12,7 +12,7 @@ ROOT = os.path.dirname(os.path.dirname(os.path.abspath(__file__)))
 SPEC = os.path.join(ROOT, "spec")
 WORK = os.path.join(ROOT, "work")
 HARNESS = os.path.join(ROOT, "harness")
-BIN = os.path.join(HARNESS, "target", "release", "pmh-verif")
+BINDIR = os.path.join(HARNESS, "target", "release")
 EVID = os.path.join(ROOT, "evidence")
 REPLAYS = os.path.join(ROOT, "replays")
 NCPU = os.cpu_count() or 4
@@ -52,31 +52,31 @@ def run(cmd, timeout=600, env=None, cwd=None, ok=(0,), capture=True):
     return p.returncode, out, time.time() - t0
 
 
-_built = False
+_built = set()
 
 
-def build_harness():
-    """rebuild the harness against /repo's current working tree (cargo decides what is stale)"""
-    global _built
-    if _built:
-        return BIN
+def build_harness(binname):
+    """rebuild one harness binary against /repo's current working tree (cargo decides what is stale)"""
+    if binname in _built:
+        return os.path.join(BINDIR, binname)
     lock_src = "/repo/Cargo.lock"
     lock_dst = os.path.join(HARNESS, "Cargo.lock")
     if not os.path.exists(lock_dst) and os.path.exists(lock_src):
         shutil.copy(lock_src, lock_dst)
     env = {"CARGO_NET_OFFLINE": "true"}
-    rc, out, dt = run(["cargo", "build", "--release", "--offline"], cwd=HARNESS, timeout=1800, env=env, ok=None)
+    rc, out, dt = run(["cargo", "build", "--release", "--offline", "--bin", binname], cwd=HARNESS, timeout=1800,
+                      env=env, ok=None)
     if rc != 0:
         raise ToolError("harness build failed:\n" + out[-4000:])
-    log("[build] harness up to date (%.1fs)" % dt)
-    _built = True
-    return BIN
+    log("[build] harness binary %s up to date (%.1fs)" % (binname, dt))
+    _built.add(binname)
+    return os.path.join(BINDIR, binname)
 
 
-def harness(args, timeout=1800, env=None, ok=(0,)):
-    """run a harness subcommand; returns (rc, stdout)"""
-    build_harness()
-    rc, out, dt = run([BIN] + [str(a) for a in args], timeout=timeout, env=env, ok=ok)
+def harness(binname, args, timeout=1800, env=None, ok=(0,)):
+    """run a harness binary (built from harness/src/bin/<binname>.rs); returns (rc, stdout)"""
+    b = build_harness(binname)
+    rc, out, dt = run([b] + [str(a) for a in args], timeout=timeout, env=env, ok=ok)
     return rc, out
 
 
